@@ -314,7 +314,7 @@ static void wlAccounting() {
   for (int ph = 0; ph < nPhases; ++ph) {
     const char* last = "?";
     int cur = (int)pool.numThreads();
-    switch (pick(6)) {
+    switch (pick(7)) {
       case 0:
         directProducer(range(1, 4));
         last = "direct";
@@ -353,6 +353,20 @@ static void wlAccounting() {
         pool.resize(range(0, 5));
         ts.wait();
         last = "placed+resize";
+        break;
+      }
+      case 5: {
+        // another thread submits directly (schedule() is lock-free and may race resize()) while this
+        // one resizes: every increment made around the resize's drain must still meet its decrement
+        int ops = range(1, 6);
+        std::thread prod([ops]() { directProducer(ops); });
+        int nr = range(1, 3);
+        for (int k = 0; k < nr; ++k) {
+          sim_work(range(0, 12));
+          pool.resize(range(1, 5));
+        }
+        prod.join();
+        last = "concurrent-direct+resize";
         break;
       }
       default:
@@ -627,10 +641,80 @@ static void wlIdleWake() {
   cts.reset();
 }
 
+// Several spaced single submissions into the same pool, each made only after every worker has parked
+// again: wake-state bookkeeping that drifts (a sleeper claimed but a different one woken, a counter
+// decremented twice) only shows from the second or third submission on.
+static void wlIdleWakeRepeat() {
+  Ctx ctx;
+  g = &ctx;
+  tagsReset();
+  WakeRun wr;
+  gw = &wr;
+  int nThreads = range(2, 8);
+  static const int paths[] = {P_SCHED, P_SCHED_FQ, P_TS_SCHED, P_CTS_L_SCHED};
+  int rounds = range(2, 6);
+  bool mixPaths = chance(1, 3);
+  int path0 = oneOf(paths);
+  sim_note("threads", nThreads);
+  sim_note("rounds", rounds);
+  sim_note("path", mixPaths ? -1 : path0);
+  dispenso::ThreadPool pool((size_t)nThreads);
+  ctx.pool = &pool;
+  dispenso::TaskSet ts(pool);
+  dispenso::ConcurrentTaskSet cts(pool, dispenso::TaskCost::kLightweight);
+  for (int r = 0; r < rounds; ++r) {
+    int path = mixPaths ? oneOf(paths) : path0;
+    sim_faults_enable(0);
+    for (int i = 0; i < 1000000 && sim_count_blocked_timed_futex() < nThreads; ++i)
+      sim_sleep_ns(2000);
+    if (sim_count_blocked_timed_futex() < nThreads)
+      sim_fail("setup:workers-never-parked", "round %d: only %d of %d workers parked", r, sim_count_blocked_timed_futex(), nThreads);
+    sim_faults_enable(1);
+    SimLatch latch(1);
+    wr.latch = &latch;
+    WakeBody b;
+    b.tag = tagNew(path);
+    uint64_t idleBefore = sim_stat_idle_futex_timeouts();
+    uint64_t t0 = sim_now_ns();
+    switch (path) {
+      case P_SCHED:
+        pool.schedule(b);
+        break;
+      case P_SCHED_FQ:
+        pool.schedule(b, dispenso::ForceQueuingTag());
+        break;
+      case P_TS_SCHED:
+        ts.schedule(b);
+        break;
+      default:
+        cts.schedule(b);
+        break;
+    }
+    latch.wait();
+    uint64_t idleAfter = sim_stat_idle_futex_timeouts();
+    if (idleAfter != idleBefore) {
+      char cls[160];
+      snprintf(cls, sizeof cls, "backstop-needed:%s:single:%s", pathName(path), r == 0 ? "first-submission" : "later-submission");
+      sim_fail(cls,
+               "submission %d of %d (one task via %s) into a fully parked %d-thread pool needed %llu worker wait-timeout "
+               "expiry(ies) with nothing else runnable; simulated latency %.3f ms",
+               r + 1, rounds, pathName(path), nThreads, (unsigned long long)(idleAfter - idleBefore),
+               1e-6 * (double)(sim_now_ns() - t0));
+    }
+    wr.latch = nullptr;
+    // the body finishes on its own; the sets are waited at the end
+    for (int i = 0; i < 100000 && hx::tag(b.tag).finishes == 0; ++i)
+      sim_sleep_ns(2000);
+  }
+  ts.wait();
+  cts.wait();
+}
+
 } // namespace
 
 HX_WORKLOAD("C03", "resize", wlResize, SF_ALL, 6000000, 6000000, 1);
 HX_WORKLOAD("C08", "accounting", wlAccounting, SF_ALL, 6000000, 6000000, 1);
 HX_WORKLOAD("C09", "shutdown", wlShutdown, SF_DELAY_ONLY & ~SF_BIT(SF_LATE_TIMER), 6000000, 6000000, 1);
 // spurious wakes would rescue a missed wake, late timers would only postpone the backstop: both off
-HX_WORKLOAD("C07", "idle-wake", wlIdleWake, SF_BIT(SF_WAKE_CHOICE) | SF_BIT(SF_STALL) | SF_BIT(SF_YIELD_NOOP), 6000000, 6000000, 1);
+HX_WORKLOAD("C07", "idle-wake", wlIdleWake, SF_BIT(SF_WAKE_CHOICE) | SF_BIT(SF_STALL) | SF_BIT(SF_YIELD_NOOP), 6000000, 6000000, 2);
+HX_WORKLOAD("C07", "idle-wake-repeat", wlIdleWakeRepeat, SF_BIT(SF_WAKE_CHOICE) | SF_BIT(SF_STALL) | SF_BIT(SF_YIELD_NOOP), 8000000, 8000000, 1);
